@@ -273,10 +273,14 @@ fn sweep<T: Sc>(ctx: &Ctx, sc: &Scen, depth: usize, only: Option<(Phase, Vec<usi
     }
     // C04 only needs the fits (fault at every model call of a whole fit): `--phases fit`
     let fit_only = ctx.args.extra.get("phases").map(|p| p == "fit").unwrap_or(false);
-    if fit_only {
+    // `--phases fitstats`: fit_with_statistics only (the build profile with debug assertions and overflow checks runs this one)
+    let stats_only = ctx.args.extra.get("phases").map(|p| p == "fitstats").unwrap_or(false);
+    if fit_only || stats_only {
         jobs.clear();
     }
-    jobs.push((Phase::Fit, vec![]));
+    if !stats_only {
+        jobs.push((Phase::Fit, vec![]));
+    }
     if sc.s == 1 && !fit_only {
         jobs.push((Phase::FitStats, vec![]));
     }
@@ -327,6 +331,10 @@ fn report(ctx: &Ctx, sc: &Scen, ph: Phase, h: &[usize], k: u64, mode: FaultMode,
             s.violate(prop, sig, cj.clone(), detail.clone());
             if prop == "C03" {
                 s.violate("C09", sig, cj.clone(), detail.clone());
+            }
+            // "returns the fit result as Err - in every build profile, without panicking" is a clause of C12
+            if ph == Phase::FitStats && (sig == "panic" || sig.starts_with("statistics-ok")) {
+                s.violate("C12", sig, cj.clone(), detail.clone());
             }
             // "Ok exactly when the termination reason counts as successful" is a clause of C04
             if sig == "ok-iff-successful" {
@@ -481,7 +489,7 @@ fn main() {
             }
             return;
         }
-        let fit_only = ctx.args.extra.get("phases").map(|p| p == "fit").unwrap_or(false);
+        let fit_only = ctx.args.extra.get("phases").map(|p| p == "fit" || p == "fitstats").unwrap_or(false);
         if !fit_only {
             domain_fits::<f64>(&ctx, ctx.args.thorough());
             if ctx.args.thorough() {
